@@ -1,10 +1,10 @@
-\* replayed exhaustively (thorough): MIXED GRANULARITY, <= 2 records of 1 / 4 units at 0, 1, 3, 6 in units of 1, 2, 4 bytes x 12
-\* windows x 7 lanes x -S none / L2
+\* replayed exhaustively (thorough): MIXED GRANULARITY, <= 2 records of 4 units at 0, 1, 3, 6 in units of 1, 2, 4 bytes x 12
+\* windows x 7 lanes
 CONSTANTS
   Dev = {}
   MaxRecs = 2
   Starts = {0, 1, 3, 6}
-  UnitLens = {1, 4}
+  UnitLens = {4}
   GranSet = {1, 2, 4}
   EntryAddrs = {}
   Offsets = {}
@@ -16,6 +16,6 @@ CONSTANTS
   LaneSet <- L_Mixed3
   FiltSet <- F_None
   ESet <- E_None
-  HdrSet <- H_Mixed
+  HdrSet <- H_None
 SPECIFICATION CoverSpec
 CHECK_DEADLOCK FALSE
